@@ -393,8 +393,8 @@ With the second haplotype itself (fixes/F45.patch) there is no failure. -/
 theorem F45_witness :
     agreementFixed [[2,0,0],[1,1,1]] [[2,0,0],[1,1,1]] = none ∧
     agreementSecond [[2,0,0],[1,1,1]] [[2,0,0],[1,1,1]] = some [1,1,1] ∧
-    (comparePair true true true false 2 [⟨10,[2,1],true,1⟩, ⟨20,[0,1],true,1⟩] [⟨10,[2,1],true,1⟩, ⟨20,[0,1],true,1⟩]).isNone ∧
-    (comparePair true true true true 2 [⟨10,[2,1],true,1⟩, ⟨20,[0,1],true,1⟩] [⟨10,[2,1],true,1⟩, ⟨20,[0,1],true,1⟩]).isSome := by
+    (comparePair true true true false false 2 [⟨10,[2,1],true,1⟩, ⟨20,[0,1],true,1⟩] [⟨10,[2,1],true,1⟩, ⟨20,[0,1],true,1⟩]).isNone ∧
+    (comparePair true true true true false 2 [⟨10,[2,1],true,1⟩, ⟨20,[0,1],true,1⟩] [⟨10,[2,1],true,1⟩, ⟨20,[0,1],true,1⟩]).isSome := by
   decide
 
 /-- the F45 repair never fails, and on heterozygous biallelic phasings (what `compare` handled so far) it is the
